@@ -34,6 +34,7 @@ TRUSTED = [
     "solver clause: the installed qutip 5.3.1 has no qutip.Options, so Processor.run_state(solver path) raises "
     "AttributeError before solving; the harness exercises that path only under an in-process shim "
     "qutip.Options=dict and only as a numerical oracle (tolerance 2e-3)",
+    "save/reload is not checked on the scale families: the %1.16f file format is absolute (external numerics)",
     "cubic pulses: only the numerical oracle 'interpolates its samples / zero outside its grid' on get_full_coeffs",
     "the solver-operator oracle evaluates QobjEvo only at midpoints of merged intervals longer than 1e-6 "
     "(qutip's step interpolation applies its own tolerance next to grid points)",
@@ -116,8 +117,8 @@ def all_points(inp):
     return pts
 
 
-def in_theorem_domain(inp):
-    """independent re-statement of inputs_okb"""
+def in_theorem_domain(inp, need_sep=True):
+    """independent re-statement of inputs_okb (need_sep=False: without the well-separation clause)"""
     if inp.get("kind", "step") != "step":
         return False
     has = False
@@ -138,6 +139,8 @@ def in_theorem_domain(inp):
             return False
     if not has:
         return False
+    if not need_sep:
+        return True
     pts = sorted(set(all_points(inp)))
     return all(pts[i + 1] - pts[i] > TOL for i in range(len(pts) - 1))
 
@@ -168,13 +171,13 @@ def build(inp):
     mats = {"drift": [], "ctrl": []}
     for d in inp.get("drift", []):
         dd = [dims[q] for q in d["targets"]]
-        m = rand_herm(d["seed"], int(np.prod(dd)))
+        m = rand_herm(d["seed"], int(np.prod(dd))) * float(fr(d.get("scale", [1, 1])))
         proc.add_drift(qutip.Qobj(m, dims=[dd, dd]), targets=list(d["targets"]))
         mats["drift"].append(embed(m, d["targets"], dims))
     ops = []
     for ch in inp["channels"]:
         dd = [dims[q] for q in ch["targets"]]
-        m = rand_herm(ch["seed"], int(np.prod(dd)))
+        m = rand_herm(ch["seed"], int(np.prod(dd))) * float(fr(ch.get("scale", [1, 1])))
         ops.append(qutip.Qobj(m, dims=[dd, dd]))
         mats["ctrl"].append(embed(m, ch["targets"], dims))
     # add_control registration order: "ctrl_order" (channel indices) may differ from the order in which the
@@ -185,21 +188,93 @@ def build(inp):
         if ch.get("ctrl", True):       # False: the channel exists only as a Pulse object given to add_pulse
             proc.add_control(ops[k], targets=list(ch["targets"]), label=ch["label"])
 
-    def arr(x):
-        return None if x is None else np.array([float(fr(v)) for v in x], dtype=float)
+    user = []       # (description, the caller's ndarray, pristine copy): must be bit-identical after every call
 
-    def cof(x):
-        return x if (x is None or isinstance(x, bool)) else arr(x)
+    def arr(x, what="array"):
+        if x is None:
+            return None
+        a = np.array([float(fr(v)) for v in x], dtype=float)
+        user.append((what, a, a.copy()))
+        return a
+
+    # coefficient arrays that several channels SHARE: "pool" = value lists; a channel with
+    # "share": [i, start, stop] gets pool[i] itself (full range) or the view pool[i][start:stop];
+    # with "pool2d" the pool arrays are the rows (views) of one 2-D user array
+    pool = []
+    if inp.get("pool"):
+        if inp.get("pool2d"):
+            big = np.array([[float(fr(v)) for v in row] for row in inp["pool"]], dtype=float)
+            user.append(("shared 2-D coefficient array", big, big.copy()))
+            pool = [big[i] for i in range(big.shape[0])]
+        else:
+            pool = [arr(row, "shared coefficient array %d" % i) for i, row in enumerate(inp["pool"])]
+
+    def cof(ch):
+        x = ch["coeff"]
+        if x is None or isinstance(x, bool):
+            return x
+        sh = ch.get("share")
+        if sh is not None:
+            base = pool[sh[0]]
+            return base if (sh[1] == 0 and sh[2] == len(base)) else base[sh[1]:sh[2]]
+        return arr(x, "coeff of %s" % ch["label"])
 
     if inp.get("mode", "direct") == "setters":
-        proc.set_coeffs({ch["label"]: cof(ch["coeff"]) for ch in inp["channels"]})
-        proc.set_tlist({ch["label"]: arr(ch["tlist"]) for ch in inp["channels"]})
+        proc.set_coeffs({ch["label"]: cof(ch) for ch in inp["channels"]})
+        proc.set_tlist({ch["label"]: arr(ch["tlist"], "tlist of %s" % ch["label"]) for ch in inp["channels"]})
     else:
         for ch, q in zip(inp["channels"], ops):
             kw = pulse_label_kw(ch)
-            proc.add_pulse(Pulse(q, list(ch["targets"]), tlist=arr(ch["tlist"]), coeff=cof(ch["coeff"]),
-                                 spline_kind=kind, **kw))
+            proc.add_pulse(Pulse(q, list(ch["targets"]), tlist=arr(ch["tlist"], "tlist of %s" % ch["label"]),
+                                 coeff=cof(ch), spline_kind=kind, **kw))
+    proc._c14_user = user
     return proc, mats
+
+
+def mutated(proc):
+    """descriptions of the caller's input arrays that are no longer bit-identical to what was passed in"""
+    return [w for w, a, c in getattr(proc, "_c14_user", [])
+            if a.shape != c.shape or a.tobytes() != c.tobytes()]
+
+
+def run_history(proc, inp, log):
+    """earlier calls on the SAME processor (the model is history-free, so nothing observed later may change)"""
+    import qutip
+    for op in inp.get("history", []):
+        try:
+            if op == "qobjevo0":
+                proc.get_qobjevo(noisy=False)
+            elif op == "qobjevo1":
+                proc.get_qobjevo(noisy=True)
+            elif op == "analytic":
+                proc.run_analytically()
+            elif op == "coeffs":
+                proc.get_full_coeffs()
+            elif op == "tlist":
+                proc.get_full_tlist()
+            elif op == "save":
+                tmp = tempfile.mkdtemp(prefix="c14-")
+                try:
+                    proc.save_coeff(os.path.join(tmp, "h.txt"), inctime=True)
+                finally:
+                    shutil.rmtree(tmp, ignore_errors=True)
+            elif op == "solver":
+                shim = not hasattr(qutip, "Options")
+                if shim:
+                    qutip.Options = dict
+                try:
+                    d = int(np.prod(inp["dims"]))
+                    ket = qutip.basis(d, 0)
+                    ket.dims = [list(inp["dims"]), [1] * len(inp["dims"])]
+                    proc.run_state(init_state=ket)
+                finally:
+                    if shim:
+                        del qutip.Options
+        except Exception:
+            pass
+        bad = mutated(proc)
+        if bad and not log:
+            log.append("%s: %s" % (op, ", ".join(bad)))
 
 
 def pulse_label_kw(ch):
@@ -228,7 +303,7 @@ def fracs(a):
 
 def run_impl(inp):
     """observable outputs of the public functions; None = rejected (exception)"""
-    out = {"full": None, "rows": None, "props": None, "err": {}}
+    out = {"full": None, "rows": None, "props": None, "err": {}, "mutated": []}
     with warnings.catch_warnings():
         warnings.simplefilter("ignore")
         try:
@@ -236,6 +311,7 @@ def run_impl(inp):
         except Exception as e:  # construction itself refused
             out["err"]["build"] = repr(e)[:200]
             return out, None, None
+        run_history(proc, inp, out["mutated"])
         try:
             f = proc.get_full_tlist()
             out["full"] = None if f is None else fracs(f)
@@ -255,6 +331,9 @@ def run_impl(inp):
             out["props"] = [np.asarray(u.full()) for u in us]
         except Exception as e:
             out["err"]["props"] = repr(e)[:200]
+        bad = mutated(proc)
+        if bad and not out["mutated"]:
+            out["mutated"].append("get_full_tlist/get_full_coeffs/run_analytically: " + ", ".join(bad))
     return out, proc, mats
 
 
@@ -411,6 +490,8 @@ def oracle_case(inp, impl=None, proc=None, mats=None, solver=False, files=True, 
     if impl is None:
         impl, proc, mats = run_impl(inp)
     kind = inp.get("kind", "step")
+    if impl.get("mutated"):
+        fail("a call modified the caller's input array in place", impl["mutated"], "input arrays bit-identical")
     if not inp["channels"]:
         # no pulse at all: if the processor is accepted, zero time elapses -- the ordered product is empty
         if impl["props"] is not None and len(impl["props"]) != 0:
@@ -420,6 +501,8 @@ def oracle_case(inp, impl=None, proc=None, mats=None, solver=False, files=True, 
         oracle_cubic(inp, impl, fail)
         return fails
     if not in_theorem_domain(inp):
+        if in_theorem_domain(inp, need_sep=False) and all(isinstance(c["coeff"], list) for c in inp["channels"]):
+            oracle_subtol(inp, impl, mats, fail)
         return fails
     grid = sorted(set(all_points(inp)))
     if impl["full"] is None or impl["rows"] is None or impl["props"] is None:
@@ -477,6 +560,23 @@ def oracle_case(inp, impl=None, proc=None, mats=None, solver=False, files=True, 
                 qe, cops = proc2.get_qobjevo(noisy=True)
                 if cops:
                     fail("collapse operators on a noise-free processor", len(cops), 0)
+                if mutated(proc2):
+                    fail("a call modified the caller's input array in place",
+                         ["get_qobjevo(noisy=True): " + ", ".join(mutated(proc2))], "input arrays bit-identical")
+                qe0, _ = proc2.get_qobjevo(noisy=False)      # same operator without the drift
+                nodrift = dict(mats, drift=[])
+                for n in range(len(grid) - 1):
+                    if grid[n + 1] - grid[n] < Fraction(1, 10 ** 6):
+                        continue
+                    t = (grid[n] + grid[n + 1]) / 2
+                    er = float(np.max(np.abs(np.asarray(qe0(float(t)).full()) - hmat(nodrift, [r[n] for r in exp_rows]))))
+                    if er > 1e-9:
+                        fail("solver operator H(t) differs from drift + sum c_m(t) H_m",
+                             dict(t=str(t), max_abs_err=er, noisy=False), dict(max_abs_err="<= 1e-9"))
+                        break
+                if mutated(proc2):
+                    fail("a call modified the caller's input array in place",
+                         ["get_qobjevo(noisy=False): " + ", ".join(mutated(proc2))], "input arrays bit-identical")
                 for n in range(len(grid) - 1):
                     if grid[n + 1] - grid[n] < Fraction(1, 10 ** 6):
                         continue    # qutip's step interpolation has its own 1e-10-scale tolerance at grid points
@@ -492,9 +592,46 @@ def oracle_case(inp, impl=None, proc=None, mats=None, solver=False, files=True, 
             fail("get_qobjevo raised on a valid input", repr(e)[:200], "QobjEvo")
         if solver:
             fails += oracle_solver(inp, exp_tot, solver_max_step)
-        if files and labels_own(inp):
+        if files and labels_own(inp) and not inp.get("family", "").startswith("scale"):
             fails += oracle_files(inp, impl, got_tot)
     return fails
+
+
+SUBTOL_WHAT = "evolution differs from the time-ordered exponential of H(t) on a grid with points closer than 1e-10"
+
+
+def oracle_subtol(inp, impl, mats, fail):
+    """valid pulses whose distinct grid points come closer than the code's ABSOLUTE merging tolerance 1e-10: the
+    property text still demands the time-ordered exponential over the true grid (evolution only; 1e-8)"""
+    if impl["props"] is None or mats is None:
+        fail(SUBTOL_WHAT, impl["err"], "propagators")
+        return
+    grid = sorted(set(all_points(inp)))
+    d = int(np.prod(inp["dims"]))
+    us = [expm_i(hmat(mats, [chan_value(ch, (grid[n] + grid[n + 1]) / 2) for ch in inp["channels"]]),
+                 grid[n + 1] - grid[n]) for n in range(len(grid) - 1)]
+    err = float(np.max(np.abs(total_product(us, d) - total_product(impl["props"], d))))
+    if err > 1e-8:
+        fail(SUBTOL_WHAT, dict(max_abs_err=err), dict(max_abs_err="<= 1e-8"))
+
+
+def rescale_time(inp, k):
+    """the same physics in a time unit 2^k times smaller: times * 2^k, every Hamiltonian term / 2^k"""
+    out = json.loads(json.dumps(inp))
+    out.pop("pool", None)
+    out.pop("pool2d", None)
+    f = Fraction(2) ** k
+    for dr in out.get("drift", []):
+        dr["scale"] = enc(fr(dr.get("scale", [1, 1])) / f)
+    for ch in out["channels"]:
+        ch.pop("share", None)
+        if ch["tlist"] is not None:
+            ch["tlist"] = [enc(fr(x) * f) for x in ch["tlist"]]
+        if isinstance(ch["coeff"], list):
+            ch["coeff"] = [enc(fr(x) / f) for x in ch["coeff"]]
+        elif ch["coeff"] is True:
+            ch["scale"] = enc(fr(ch.get("scale", [1, 1])) / f)
+    return out
 
 
 def oracle_solver(inp, exp_tot, max_step=None):
@@ -726,6 +863,84 @@ def gen_shared_labels(rng):
     return inp
 
 
+HISTORY_OPS = ["qobjevo0", "qobjevo0", "qobjevo1", "analytic", "coeffs", "tlist", "save"]
+
+
+def add_history(rng, inp, solver=False):
+    ops = [rng.choice(HISTORY_OPS) for _ in range(rng.choice([1, 1, 2, 3]))]
+    if solver:
+        ops.insert(rng.randrange(len(ops) + 1), "solver")
+    inp["history"] = ops
+    return inp
+
+
+def gen_shared_arrays(rng):
+    """several channels are given ONE coefficient ndarray (the same object, or views / rows of one user array),
+    mixing the two length conventions: len(coeff) == len(tlist) (last sample unused) and
+    len(coeff) == len(tlist) - 1 (last sample acts)"""
+    inp = gen_valid(rng, nch=rng.choice([2, 2, 3, 3, 4]))
+    chans = inp["channels"]
+    n = rng.choice([2, 3, 3, 4, 5])
+    style = rng.choice(["same", "same", "views", "rows"])
+    base = gen_coeff(rng, n + (2 if style == "views" else 0))
+    base = [c if c != 0 else Fraction(7, 8) for c in base]
+    if style == "rows":
+        other = [c if c != 0 else Fraction(-5, 8) for c in gen_coeff(rng, n)]
+        inp["pool"] = [[enc(x) for x in base], [enc(x) for x in other]]
+        inp["pool2d"] = True
+    else:
+        inp["pool"] = [[enc(x) for x in base]]
+    sharers = rng.sample(range(len(chans)), rng.choice([2, 2, min(3, len(chans))]))
+    sharers.sort()
+    if rng.random() < 0.3:
+        sharers.reverse()
+    for k, m in enumerate(sharers):
+        ch = chans[m]
+        if style == "views":
+            a = rng.choice([0, 1, 2])
+            sh = [0, a, a + n]
+        elif style == "rows":
+            sh = [k % 2, 0, n]
+        else:
+            sh = [0, 0, n]
+        vals = [fr(x) for x in inp["pool"][sh[0]]][sh[1]:sh[2]]
+        # the first sharer: one sample per grid point (n points); the others: n + 1 points, last sample acts
+        long_conv = (k == 0) if rng.random() < 0.8 else (k != 0)
+        tl = gen_grid(rng, npts=n if long_conv else n + 1)
+        ch["tlist"] = [enc(x) for x in tl]
+        ch["coeff"] = [enc(x) for x in vals]
+        ch["share"] = sh
+    if rng.random() < 0.6:
+        add_history(rng, inp)
+    return inp
+
+
+def gen_scaled(rng):
+    """scale families: the same physics expressed in very different units, so that coefficients, durations or
+    single channels are many orders of magnitude away from one while every H*dt stays of order one"""
+    inp = gen_valid(rng, nch=rng.choice([1, 2, 2, 3]))
+    fam = rng.choice(["tiny-coeff", "tiny-coeff", "short-time", "short-time", "mixed", "mixed", "sub-tolerance"])
+    inp["family"] = "scale:" + fam
+    if fam == "tiny-coeff":            # coefficients ~1e-9..1e-12, durations ~1e9..1e12
+        inp = rescale_time(inp, rng.randint(30, 40))
+    elif fam == "short-time":          # durations 1e-10..2e-9 (all still above the merging tolerance)
+        inp = rescale_time(inp, -rng.randint(24, 30))
+    elif fam == "sub-tolerance":       # durations below the absolute merging tolerance 1e-10
+        inp = rescale_time(inp, -rng.randint(31, 40))
+    else:                              # some channels: tiny coefficient times huge operator, others order one
+        ks = rng.sample(range(len(inp["channels"])), rng.choice([1, max(1, len(inp["channels"]) - 1)]))
+        for m in ks:
+            ch = inp["channels"][m]
+            f = Fraction(2) ** rng.randint(30, 40)
+            ch["coeff"] = [enc(fr(x) / f) for x in ch["coeff"]]
+            ch["scale"] = enc(f)
+    inp["family"] = "scale:" + fam
+    if rng.random() < 0.25:
+        add_history(rng, inp)
+        inp["history"] = [h for h in inp["history"] if h != "solver"]
+    return inp
+
+
 def gen_repeated(rng):
     """pulse grids that repeat a time point (zero-duration slots, as compiled for a rotation by angle 0), possibly
     several times, at the start, inside or at the end; sometimes points closer than the tolerance instead"""
@@ -871,6 +1086,12 @@ def branch_tags(inp):
     kws = [json.dumps(pulse_label_kw(c), sort_keys=True) for c in chans] if inp.get("mode", "direct") == "direct" else []
     if len(set(kws)) < len(kws):
         tags.add("pulses sharing a label")
+    if inp.get("pool"):
+        tags.add("channels sharing one coefficient array")
+    if inp.get("family"):
+        tags.add(inp["family"])
+    for op in inp.get("history", []):
+        tags.add("history:" + op)
     for c in arr:
         t = [fr(x) for x in c["tlist"]]
         if any(t[i] == t[i + 1] for i in range(len(t) - 1)):
@@ -919,6 +1140,18 @@ def correspond(ctx):
         inputs.append(("shared-labels", gen_shared_labels(rng)))
     for _ in range(ctx.n(90, 700)):
         inputs.append(("repeated-points", gen_repeated(rng)))
+    for _ in range(ctx.n(80, 600)):
+        inputs.append(("shared-arrays", gen_shared_arrays(rng)))
+    for _ in range(ctx.n(110, 800)):
+        inputs.append(("scaled", gen_scaled(rng)))
+    # histories on one processor: a third of the valid-family inputs so far run earlier calls first
+    nsolv = ctx.n(8, 40)
+    for kind, inp in inputs:
+        if kind in ("valid", "late-start", "leak-family", "shared-labels", "repeated-points") \
+                and "history" not in inp and rng.random() < 0.33:
+            add_history(rng, inp, solver=(nsolv > 0 and kind == "valid" and rng.random() < 0.2))
+            if "solver" in inp["history"]:
+                nsolv -= 1
     for _ in range(ctx.n(50, 400)):
         inputs.append(("constants", gen_consts(rng)))
     for _ in range(ctx.n(80, 600)):
@@ -935,11 +1168,11 @@ def correspond(ctx):
     # file-model cases: valid property-domain inputs, every 4th
     filecases = []
     for idx, c in enumerate(cases):
-        if in_property_domain(c) and labels_own(c) and len(filecases) < ctx.n(60, 300) and idx % 3 == 0:
+        if in_property_domain(c) and labels_own(c) and not c.get("family") and len(filecases) < ctx.n(60, 300) and idx % 3 == 0:
             filecases.append((idx, bool(idx % 2)))
     models, fres = run_models(ctx.tier, cases, filecases)
 
-    n_solver = ctx.n(16, 100)
+    n_solver = ctx.n(24, 120)
     impls = {}
     saw_v0 = 0
     saw_v1 = 0
@@ -978,7 +1211,8 @@ def correspond(ctx):
             corr.disagree(inp, dom, mod["okb"], "inputs_okb vs the harness's statement of the theorem domain")
         # --- property oracle on the real code
         use_solver = in_property_domain(inp) and n_solver > 0 and (
-            kind in ("valid", "leak-family", "corpus") or (kind == "shared-labels" and idx % 5 == 0))
+            kind in ("valid", "leak-family", "corpus") or (kind == "shared-labels" and idx % 5 == 0)
+            or (kind == "shared-arrays" and idx % 4 == 0))
         if use_solver:
             n_solver -= 1
         light = kind not in ("corpus",) and idx % 2 != 0       # the heavier re-runs on every second case
@@ -1108,6 +1342,10 @@ def exhaustive_small():
 def _zero_tails(inp):
     """same input with the last sample of every one-sample-per-grid-point array pulse set to zero"""
     out = json.loads(json.dumps(inp))
+    out.pop("pool", None)             # the modified channels get arrays of their own
+    out.pop("pool2d", None)
+    for ch in out["channels"]:
+        ch.pop("share", None)
     changed = False
     for ch in out["channels"]:
         if isinstance(ch["coeff"], list) and ch["tlist"] is not None and len(ch["coeff"]) == len(ch["tlist"]) \
@@ -1133,6 +1371,10 @@ def classify(failure):
 def _drop_repeats(inp):
     """same step functions with the zero-length (or sub-tolerance) intervals of every pulse grid removed"""
     out = json.loads(json.dumps(inp))
+    out.pop("pool", None)             # the modified channels get arrays of their own
+    out.pop("pool2d", None)
+    for ch in out["channels"]:
+        ch.pop("share", None)
     changed = False
     for ch in out["channels"]:
         if not (isinstance(ch["coeff"], list) and ch["tlist"] is not None):
@@ -1183,6 +1425,19 @@ def _classify(failure):
                 return None
             if not again:
                 return "fill-coeff-repeated-points"
+    if what == SUBTOL_WHAT:
+        pts = sorted(set(all_points(inp)))
+        gaps = [pts[i + 1] - pts[i] for i in range(len(pts) - 1)]
+        if gaps and min(gaps) <= TOL:
+            k = 0
+            while min(gaps) * 2 ** k < Fraction(1, 8):
+                k += 1
+            try:
+                again = oracle_case(rescale_time(inp, k), solver=False, files=False, states=False)
+            except Exception:
+                return None
+            if not again:
+                return "absolute-grid-tolerance"
     if "solver evolution" in what and in_property_domain(inp):
         # Processor.run_state caps the integrator step at T/10 only; an interval of the merged grid that is
         # shorter can be stepped over.  Inside the class iff the failure disappears with a step cap below the
@@ -1210,6 +1465,8 @@ def search(ctx, broken):
     pool += [gen_consts(rng) for _ in range(ctx.n(30, 100))]
     pool += [gen_shared_labels(rng) for _ in range(ctx.n(40, 150))]
     pool += [gen_repeated(rng) for _ in range(ctx.n(60, 200))]
+    pool += [gen_shared_arrays(rng) for _ in range(ctx.n(60, 200))]
+    pool += [gen_scaled(rng) for _ in range(ctx.n(80, 200))]
     for inp in pool:
         try:
             fs = oracle_case(inp)
